@@ -167,6 +167,15 @@ def gen_case(ctx, k, encs, fmtname=None, big=False):
     mask = ((fmt[3] << fmt[6]) | (fmt[4] << fmt[7]) | (fmt[5] << fmt[8])) & ((1 << bpp) - 1)
     expect, feats, evs, sents = [], [], [], []
     nmsg = rng.choice([1, 1, 2, 3, 4])
+    kinds = PIX_KINDS
+    if len(encs) > 3 and rng.random() < 0.25:
+        # a session concentrated on the encodings with PERSISTENT decoder state (the four Tight zlib streams and their
+        # reset bits, the inflate stream shared by Zlib and ZRLE): many rectangles on one connection, a good share of them
+        # single-coloured (Tight fill rectangles carry reset bits too)
+        encs = rng.choice([["tight"], ["tight"], ["tight", "copyrect"], ["zlib", "zrle"], ["zrle"], ["tight", "zrle", "zlib"]])
+        nmsg = rng.choice([3, 4, 6, 8])
+        kinds = ["flat", "flat", "flat", "two", "few", "noise", "gradient", "blocks"]
+        feats.append("session/" + "+".join(encs))
     for _ in range(nmsg):
         kind = rng.random()
         if kind < 0.12:                                   # Bell
@@ -259,7 +268,7 @@ def gen_case(ctx, k, encs, fmtname=None, big=False):
                 else:
                     enc = rng.choice([e for e in encs if e != "copyrect"] or ["raw"])
                     x, y, w, h = gen_rect_geom(rng, W, H, 255 if enc == "corre" else None, 255 if enc == "corre" else None)
-                    pk = rng.choice(PIX_KINDS)
+                    pk = rng.choice(kinds)
                     pix = gen_pixels(rng, w, h, bpp, pk)
                     d = bpp // 4
                     body.append("rect %s %d %d %d %d %d %s" % (enc, x, y, w, h, rng.randrange(1 << 30),
@@ -320,8 +329,14 @@ def sync_extraction(pid):
             shutil.copy(os.path.join(src, n), os.path.join(dst, n))
 
 
-PROBE_CP15 = ["case 0 probe cpixel15", "init 4 2 16 16 0 31 63 31 11 5 0 16 31 " + ALL_ENCS, "fixed 128",
+PROBE_CP15 = ["case 0 probe cpixel15", "init 4 2 16 16 0 31 63 31 11 5 0 16 31 " + ALL_ENCS, "fixed 255",
               "b 00000001", "b 000000000004000200000010", "z 0 1 1 00" + "1111222233334444555566667777" + "8888", "run"]
+
+
+# a 65x1 rectangle in a 24-in-32-bit format whose last 3-byte CPIXEL ends exactly at the end of the scratch area
+PROBE_CP24 = ["case 0 probe cpixel24 tail", "init 65 1 32 24 0 255 255 255 16 8 0 32 255 " + ALL_ENCS, "fixed 383", "fill 5",
+              "b 00000001", "b 000000000041000100000010",
+              "z 0 1 1 80" + "11223300" * 63 + "112233" + "ff" * 129 + "00" + "00445566", "run"]
 
 
 def probe_fixes(cexe, mexe):
@@ -330,7 +345,15 @@ def probe_fixes(cexe, mexe):
     script = "\n".join(PROBE_CP15) + "\n"
     rc1, cout, cerr = vlib.run_driver(cexe, script, timeout=120)
     rc2, mout, merr = vlib.run_driver([mexe, "dec"], script, timeout=120, unlimited_stack=True)
-    return 128 if (rc1 == 0 and cout == mout and "end ok" in cout) else 0
+    mask = 128 if (rc1 == 0 and cout == mout and "end ok" in cout) else 0
+    # notes/fix_C08_7.diff (4 spare bytes behind the ZRLE data): changes the accepted data size by 4 bytes when the
+    # scratch area is inherited from an earlier, larger rectangle
+    script = "\n".join(PROBE_CP24) + "\n"
+    rc1, cout, cerr = vlib.run_driver(cexe, script, timeout=120)
+    rc2, mout, merr = vlib.run_driver([mexe, "dec"], script, timeout=120, unlimited_stack=True)
+    if rc1 == 0 and cout == mout and "end ok" in cout:
+        mask |= 256
+    return mask
 
 
 def with_fixed(tok, mask):
@@ -338,7 +361,7 @@ def with_fixed(tok, mask):
     for l in tok:
         out.append(l)
         if l.startswith("init ") and mask:
-            out.append("fixed %d" % mask)
+            out.append("fixed %d" % (mask | 127))     # bits 0..6: the committed C08 fixes, the mirror's baseline
     return out
 
 
@@ -536,6 +559,11 @@ def gen_live(ctx, k):
 def run_live(ctx, cexe, cases):
     script = "\n".join("\n".join(c["tok"]) for c in cases) + "\n"
     rc, out, err = vlib.run_driver(cexe, script, timeout=3000)
+    try:
+        open(os.path.join(ctx.scratch, "live.script"), "w").write(script)
+        open(os.path.join(ctx.scratch, "live.stderr"), "w").write("rc=%d\n" % rc + err[-8000:])
+    except OSError:
+        pass
     parts = vlib.split_cases(out)
     fails = []
     for i, c in enumerate(cases):
@@ -545,8 +573,13 @@ def run_live(ctx, cexe, cases):
         if len(il) < want or bad:
             fails.append((i, "pairing with this repository's server: client framebuffer differs from the server's (%s)" %
                           (bad[0][:80] if bad else "client stopped"), il))
-    if rc != 0 and not fails:
-        fails.append((max(0, len(parts) - 1), "implementation driver died in live pairing (rc %d): %s" % (rc, err[-600:]), []))
+    if rc != 0:
+        # everything after the crash is missing: report the crash itself, once
+        import re as _re
+        m = _re.search(r"ERROR: AddressSanitizer: [^\n]*(?:\n[^\n]*){0,6}", err)
+        k = max(0, len(parts) - 1)
+        fails = [f for f in fails if f[0] < k]
+        fails.append((k, "harness died in the live pairing (rc %d): %s" % (rc, (m.group(0) if m else err[-400:])[:500]), parts[k][1] if parts else []))
     return fails
 
 
